@@ -105,7 +105,7 @@ Definition decode_chunked (thr : Z) (psz : payload -> Z) (q : quirks) (i : input
 (* [cc_resp]: per parser response that carried rows, (trace rows, tag rows), in order; [cc_case]: c_err = the request
    ended with an error response, c_rows / c_tags = the rows of all responses concatenated (after an error: the rows
    flushed before it). *)
-Record ccase := { cc_case : case; cc_resp : list (Z * Z) }.
+Record ccase := { cc_case : case; cc_lens : list Z (* byte length of the text of each Zipkin element *); cc_resp : list (Z * Z) }.
 
 Definition zlength {A} (l : list A) : Z := Z.of_nat (List.length l).
 
